@@ -24,7 +24,9 @@ package lru
 //@ ghostfield OnDeleteElemF.dlen int
 //@ ghostfield OnDeleteElemF.dk seq[K]
 //@ ghostfield OnDeleteElemF.dv seq[V]
+// (the delete callback runs under the cache's lock: removal and callback are one atomic step)
 //@ assumed func (f OnDeleteElemF[K, V]) call(k K, v V)
+//@   underlock lock
 //@   modifies f.dlen, f.dk, f.dv
 //@   ensures f.dlen == old(f.dlen) + 1 && f.dk[old(f.dlen)] == k && f.dv[old(f.dlen)] == v
 //@   ensures forall(i, int, i < old(f.dlen) ==> f.dk[i] == old(f.dk[i]) && f.dv[i] == old(f.dv[i]))
